@@ -7,6 +7,7 @@ import time
 import common
 import genast
 import genprog
+import genrmkey
 import refinterp
 from common import Agg, Ev, same_value, jstr
 from checks.c02 import compare_with_model
@@ -311,6 +312,56 @@ def remove_key_shard(args):
     return agg
 
 
+def rmkey_history_shard(args):
+    """Histories of literals, inheritance, std.objectRemoveKey (same key removed repeatedly, removal results on either
+    side of +, shared sub-objects, objects observed before being extended) against the layer-deletion model."""
+    seed, n = args
+    rng = random.Random(seed)
+    agg = Agg()
+    ev = Ev(agg)
+    ns = "[" + ", ".join(jstr(k) for k in genrmkey.KEYS) + "]"
+    try:
+        for i in range(n):
+            h = genrmkey.gen(rng)
+            head, root = genrmkey.render(h)
+            visible, allk, vals = genrmkey.model(h)
+            src = (head + "local X = %s, NS = %s; {m: X, f: std.objectFields(X), fa: std.objectFieldsAll(X), "
+                   "len: std.length(X), has: [std.objectHas(X, k) for k in NS], hasall: [std.objectHasAll(X, k) for k in NS], "
+                   "isin: [k in X for k in NS], hv: {[k]: X[k] for k in std.objectFieldsAll(X)}, "
+                   "eq: X == %s, vals: std.objectValues(X), kv: std.objectKeysValues(X)}") % (
+                       root, ns, common.jval(visible))
+            r = ev.run(src, walk=1, stack=2000)
+            desc = {"program": src[:1500], "model_visible": visible, "model_all": allk}
+            if r.cls == "inconclusive":
+                continue
+            if r.cls in ("panic", "crash"):
+                agg.violation(common.panic_signature(r), desc, {"script": r.lines})
+                continue
+            if r.cls != "value":
+                agg.violation({"kind": "rmkey_history_fails", "err": r.kind}, dict(desc, got=r.brief()), {"script": r.lines})
+                continue
+            v = r.value
+            exp = {"m": visible, "f": sorted(visible), "fa": allk, "len": float(len(visible)),
+                   "has": [k in visible for k in genrmkey.KEYS], "hasall": [k in vals for k in genrmkey.KEYS],
+                   "isin": [k in vals for k in genrmkey.KEYS], "hv": vals, "eq": True,
+                   "vals": [visible[k] for k in sorted(visible)],
+                   "kv": [{"key": k, "value": visible[k]} for k in sorted(visible)]}
+            bad = [k for k in exp if not same_value(v[k], exp[k], strict_zero=False)]
+            if bad:
+                agg.violation({"kind": "rmkey_history_differs_from_model", "what": bad[0]},
+                              dict(desc, differing=bad, got={k: repr(v[k])[:200] for k in bad},
+                                   expected={k: repr(exp[k])[:200] for k in bad}), {"script": r.lines})
+                continue
+            agg.count("rmkey_histories_agree")
+            agg.add("rmkey_history_shapes", genrmkey.shape_key(h))
+            agg.nontrivial.add(common.h64(src))
+            if i < 1:
+                agg.sample({"leg": "rmkey_history", "program": head + root, "visible": visible, "all": allk})
+    finally:
+        ev.close()
+    return agg
+
+
 TEMPLATES = [
     # late binding of self at any nesting of extension; super = layers to the left
     ("local A = {a: 1, b: self.a}, B = {a: 2}, C = {a: 3}; [(A + B + C).b, (A + (B + C)).b, ((A + B) + C).b]", [3.0, 3.0, 3.0]),
@@ -367,6 +418,9 @@ def run(tier, seed):
     n4 = 2400 if quick else 150_000
     for a in common.pmap(prior_use_shard, [(seed * 1123 + i, n4 // 16) for i in range(16)]):
         total.merge(a)
+    n5 = 6400 if quick else 400_000
+    for a in common.pmap(rmkey_history_shard, [(seed * 1129 + i, n5 // 16) for i in range(16)]):
+        total.merge(a)
     for a in common.pmap(templates_shard, [(seed,)]):
         total.merge(a)
     rule = ("chains of 2-5 generated object expressions (self, super.f, super[e], e in super, +:, three visibilities, "
@@ -378,7 +432,11 @@ def run(tier, seed):
             "objectRemoveKey: field tables minus the key with other visibilities unchanged, removed twice, re-added, "
             "values of fields that do not read the removed key intact (decided by a probe that makes the key fail); "
             "prior use: reading/comparing/stringifying operands before they are combined never changes the combination "
-            "(asserts and late-bound fields apply to the final object). "
+            "(asserts and late-bound fields apply to the final object); "
+            "objectRemoveKey histories: terms over literals / comprehension objects / + / objectRemoveKey (same key removed "
+            "repeatedly, removal results on either side of +, shared sub-objects, objects observed before extension) "
+            "against the layer-deletion model: manifest, objectFields(All), length, objectHas(All), in, hidden values, "
+            "==, objectValues, objectKeysValues. "
             "distinct_nontrivial = distinct chains / programs / (object, key) pairs fully compared.")
     return common.finish(PROP, tier, seed, total, rule, t0,
                          assumptions=["reference model as in C02", "a field 'does not read' key K iff it still evaluates when K is overridden by a failing field"])
